@@ -40,7 +40,7 @@ type c08Params struct {
 func (c08) ID() string    { return "C08" }
 func (c08) Level() string { return "exploration" }
 func (c08) Rule() string {
-	return "for every legal flow (client role: ECC, ECC with CertificateRequest, ECDHE, resumed; server role: ECC, ECC with client certificate under the policies require-and-verify / request / require-any, ECC with empty certificate, ECDHE, resumed) on both stacks: the unedited flow (control, must complete) and ALL single edits - omit, repeat, transpose adjacent, insert any kind of the alphabet (all handshake kinds, ChangeCipherSpec, warning alert, application data with and without payload, HelloRequest) at any position, ChangeCipherSpec left out while the keys are switched all the same, - plus runs of 16 and 17 warning alerts; every sequence also with consecutive handshake messages packed into one record; thorough adds seeded double and triple edits. The scripted peer keeps transcript and keys consistent with what it sent. Oracle: the real endpoint completes iff a prefix of the received kinds (warning alerts within the tolerance removed) is exactly a legal flow. Also (stream stack): restart after deadline - the application calls Handshake with a one-second deadline, the peer falls silent after k messages, the application clears the deadline and calls Handshake again while a peer that starts from scratch sends the whole flow (received: k messages, then a flow; not legal). distinct = distinct (stack, role, flow, sequence); non-trivial = the edited part was delivered before the endpoint finished"
+	return "for every legal flow (client role: ECC, ECC with CertificateRequest, ECDHE, resumed; server role: ECC, ECC with client certificate under the policies require-and-verify / request / require-any, ECC with empty certificate, ECDHE, resumed) on both stacks: the unedited flow (control, must complete) and ALL single edits - omit, repeat, transpose adjacent, insert any kind of the alphabet (all handshake kinds, ChangeCipherSpec, warning alert, application data with and without payload, HelloRequest) at any position, ChangeCipherSpec left out while the keys are switched all the same, - plus runs of 16 and 17 warning alerts; every sequence also with consecutive handshake messages packed into one record; thorough adds seeded double and triple edits. The scripted peer keeps transcript and keys consistent with what it sent. Oracle: the real endpoint completes iff a prefix of the received kinds (warning alerts within the tolerance removed) is exactly a legal flow. Also (stream stack): restart after deadline - the application calls Handshake with a one-second deadline, the peer falls silent after k messages, the application clears the deadline and calls Handshake again while a peer that starts from scratch sends the whole flow (received: k messages, then a flow; not legal). Also: slip in - a ServerHelloDone or Certificate under the message_seq of the message before it and kept out of the sender's transcript, at every position; on the datagram stack every sequence also with each run of handshake messages / ChangeCipherSpec / Finished in ONE datagram, as the library's own flights are. distinct = distinct (stack, role, flow, sequence); non-trivial = the edited part was delivered before the endpoint finished"
 }
 func (c08) Components() (real, stub []string) {
 	return []string{"tlcp/dtlcp client and server state machines (instrumented)", "session cache (resumed flows)"},
